@@ -4,7 +4,7 @@ from .c02 import project, attrs
 
 PROP = 'C03'
 PREDICATE = 'C03'
-LEAN_TARGETS = ['LLTD.Props.C03', 'LLTD.Props.C03H']
+LEAN_TARGETS = ['LLTD.Props.C03', 'LLTD.Props.C03H', 'LLTD.Props.C03T']
 VARIANT = 'plain'
 RULE = ('Discover frames with generation in {0,1,0x00FF,0xFF00,0xFFFF,random}, any transaction id, direct and bridged, ToS 0/1, '
         'preceded by arbitrary histories (Hellos of other stations, Discovers of the other service, Resets, commands); '
